@@ -752,3 +752,57 @@ func WeirdC12(r *rand.Rand, n int) []*Case {
 	}
 	return out
 }
+
+// ---------------------------------------------------------------- C12: several passes, several packages
+
+// MultiC12: groups (default, nested override in both name orders) of invocations over TWO packages
+// (goderive ./p ./q) whose first package contains nested derive calls (OUTER(deriveKeys…(m), …): the
+// argument type of OUTER is only known after a first generation pass, so newPackage runs twice). Under
+// `A=pick, B=pickB…` (and the mirrored map) every call must be handled by the plugin with the longest
+// matching prefix in EVERY pass and in EVERY package of the invocation.
+func MultiC12(r *rand.Rand, n int) []*Case {
+	typs := []TypeSpec{
+		{Go: "[]int", Wire: "(sl int)"},
+		{Go: "map[string]int", Wire: "(m string int)"},
+	}
+	pool := []string{"max", "min", "sort", "set", "unique", "hash"}
+	word := map[string]string{"max": "Max", "min": "Min", "sort": "Sort", "set": "Set", "unique": "Uniq", "hash": "Hash"}
+	bases := []string{"pick", "gen", "zed"}
+	var out []*Case
+	for g := 0; g < n; g++ {
+		a, b := "max", "min"
+		if g > 0 {
+			perm := r.Perm(len(pool))
+			a, b = pool[perm[0]], pool[perm[1]]
+		}
+		base := bases[g%len(bases)]
+		sfx := []string{"", "Of", "2"}
+		s1, s2 := sfx[r.Intn(3)], sfx[r.Intn(3)]
+		mk := func(id, rename string, ov map[string]string) *Case {
+			pl := Plugins("derive", ov)
+			pre := map[string]string{}
+			for _, x := range pl {
+				pre[x.Name] = x.Prefix
+			}
+			nested := func(p, s string) CallSpec {
+				c := Call(p, pre[p]+s, 1)
+				c.Arity = 1
+				c.Inner = pre["keys"] + "Of"
+				return c
+			}
+			simple := func(p, s string) CallSpec {
+				c := Call(p, pre[p]+s, 0)
+				c.Arity = 1
+				return c
+			}
+			return &Case{ID: id, Stream: "c12", Types: typs, Plugins: pl, GoderiveArgs: PrefixArgs("derive", ov),
+				Variants: []Variant{{false, false}}, KeepDerived: true, NoModel: true, Group: fmt.Sprintf("m%d", g), Rename: rename,
+				Files: []FileSpec{{Name: "a.go", Calls: []CallSpec{simple(a, s1), simple(b, s2), nested(b, "N"), nested(a, "N2")}}},
+				Pkg2:  []FileSpec{{Name: "a.go", Calls: []CallSpec{simple(b, "Q"), simple(a, "Q"), nested(a, "R")}}}}
+		}
+		out = append(out, mk(fmt.Sprintf("m%d-default", g), "default", nil))
+		out = append(out, mk(fmt.Sprintf("m%d-ab", g), "plugin-nested", map[string]string{a: base, b: base + word[b]}))
+		out = append(out, mk(fmt.Sprintf("m%d-ba", g), "plugin-nested", map[string]string{b: base, a: base + word[a]}))
+	}
+	return out
+}
